@@ -46,6 +46,12 @@ LIMITS["ada::serializers::ipv6"] = {
     (CUT, 1.5): "a run of a single zero piece is not compressed (compress only when the longest run is longer than 1)",
     (PT, 8): "eight pieces",
 }
+LIMITS["ada::serializers::(anonymous namespace)::write_hex_u16"] = {
+    (CUT, 0xFFF + 0.5): "four hex digits from 0x1000", (CUT, 0xFF + 0.5): "three from 0x100", (CUT, 0xF + 0.5): "two from 0x10",
+}
+LIMITS["ada::serializers::(anonymous namespace)::write_u8"] = {
+    (CUT, 9.5): "two decimal digits from 10", (CUT, 99.5): "three from 100",
+}
 LIMITS["ada::serializers::find_longest_sequence_of_ipv6_pieces"] = {(CUT, 7.5): "eight pieces"}
 LIMITS["ada::url_aggregator::parse_ipv6"] = LIMITS["ada::url::parse_ipv6"]
 LIMITS["ada::url_aggregator::parse_ipv4"] = LIMITS["ada::url::parse_ipv4"]
@@ -121,7 +127,7 @@ def fmt(x):
     return "%d | %d" % (lo, lo + 1)
 
 
-def check(ctx, fx, rule="H7", table=None, floor=8, contains=False, what="the Standard's"):
+def check(ctx, fx, rule="H7", table=None, floor=10, contains=False, what="the Standard's"):
     table = LIMITS if table is None else table
     n = 0
     for q, want in sorted(table.items()):
@@ -149,7 +155,7 @@ def check(ctx, fx, rule="H7", table=None, floor=8, contains=False, what="the Sta
             if lits:
                 have = {nd["v"] for nd, st, b in C.all_nodes(f) if nd.get("k") == "lit" and nd.get("str")}
                 lit_missing = sorted(set(lits) - have)
-            ctx.check(rule, "%s: numeric limits" % f["key"].split("(")[0], not missing and not extra and not lit_missing,
+            ctx.check(rule, "%s: numeric limits" % f["qname"], not missing and not extra and not lit_missing,
                       "; ".join(fmt(x) for x in sorted(got, key=str)),
                       "%s%s%s" % (
                           "limit(s) no longer tested: %s. " % "; ".join("%s (%s)" % (fmt(x), want[x]) for x in missing) if missing else "",
@@ -160,6 +166,9 @@ def check(ctx, fx, rule="H7", table=None, floor=8, contains=False, what="the Sta
                           if lit_missing else ""),
                       where=f["loc"].replace("/repo/", ""))
     ctx.floor(rule, n, floor, "functions whose numeric limits are compared with %s" % what)
+
+
+SERIALIZER_LIMITS = {k: v for k, v in LIMITS.items() if "serializers::" in k}      # shared with C05 (href re-parses to itself)
 
 
 # ---- other properties using the same abstraction ---------------------------------------------------------------------
